@@ -47,8 +47,20 @@ groups2 = {
  'buffer': ['crates/trippy-packet/src/buffer.rs', 'crates/trippy-packet/src/lib.rs', 'crates/trippy-packet/src/error.rs'],
  'tuilib': ['crates/trippy-tui/src/lib.rs', 'crates/trippy-tui/src/locale.rs', 'crates/trippy-tui/src/util.rs', 'crates/trippy-privilege/src/lib.rs', 'crates/trippy/src/lib.rs', 'crates/trippy/src/main.rs'],
 }
+groups3 = {
+ 'unix2': ['crates/trippy-core/src/net/platform/unix.rs', 'crates/trippy-core/src/net/socket.rs', 'crates/trippy-core/src/net/source.rs', 'crates/trippy-core/src/net/platform/byte_order.rs'],
+ 'dns2': ['crates/trippy-dns/src/lazy_resolver.rs', 'crates/trippy-dns/src/resolver.rs', 'crates/trippy-dns/src/config.rs'],
+ 'report2': ['crates/trippy-tui/src/report/csv.rs', 'crates/trippy-tui/src/report/json.rs', 'crates/trippy-tui/src/report/types.rs', 'crates/trippy-tui/src/report/dot.rs', 'crates/trippy-tui/src/report/flows.rs', 'crates/trippy-tui/src/report/stream.rs', 'crates/trippy-tui/src/report.rs'],
+ 'tuicfg2': ['crates/trippy-tui/src/config/binding.rs', 'crates/trippy-tui/src/config/columns.rs', 'crates/trippy-tui/src/config/cmd.rs', 'crates/trippy-tui/src/frontend/columns.rs', 'crates/trippy-tui/src/frontend/binding.rs'],
+ 'render2': ['crates/trippy-tui/src/frontend/render/header.rs', 'crates/trippy-tui/src/frontend/render/footer.rs', 'crates/trippy-tui/src/frontend/render/tabs.rs', 'crates/trippy-tui/src/frontend/render/help.rs', 'crates/trippy-tui/src/frontend/render/util.rs', 'crates/trippy-tui/src/frontend/render/histogram.rs', 'crates/trippy-tui/src/frontend/render/history.rs', 'crates/trippy-tui/src/frontend/render/bar.rs', 'crates/trippy-tui/src/frontend/render/flows.rs', 'crates/trippy-tui/src/frontend/render/app.rs', 'crates/trippy-tui/src/frontend/render/body.rs', 'crates/trippy-tui/src/frontend/render/splash.rs', 'crates/trippy-tui/src/frontend/render/bsod.rs'],
+ 'types2': ['crates/trippy-core/src/types.rs', 'crates/trippy-core/src/config.rs', 'crates/trippy-core/src/constants.rs', 'crates/trippy-core/src/probe.rs'],
+ 'tuiapp2': ['crates/trippy-tui/src/frontend/tui_app.rs', 'crates/trippy-tui/src/frontend/config.rs', 'crates/trippy-tui/src/frontend/theme.rs', 'crates/trippy-tui/src/app.rs'],
+ 'packet2': ['crates/trippy-packet/src/tcp.rs', 'crates/trippy-packet/src/udp.rs', 'crates/trippy-packet/src/ipv6.rs', 'crates/trippy-packet/src/buffer.rs', 'crates/trippy-packet/src/error.rs'],
+}
 if len(sys.argv) > 2 and sys.argv[2] == 'set2':
     groups = groups2
+if len(sys.argv) > 2 and sys.argv[2] == 'set3':
+    groups = groups3
 ptext = '\n\n'.join(f"### {p['id']} — {p.get('title','')}\n{p.get('statement', p.get('text',''))}" for p in props)
 for g, files in groups.items():
     files = [f for f in files if os.path.exists('/repo/' + f)]
